@@ -76,6 +76,19 @@ def _digest(x):
     return hashlib.sha1(repr(x).encode()).hexdigest()[:16]
 
 
+def _quantized_distinct(q):
+    """The quantifier's hypotheses re-read on the quantized sequence (event extraction sees steps, not seconds):
+    no two same-pitch notes overlap or coincide in steps, no two chord annotations share a step."""
+    seen = {}
+    for n in q.notes:
+        for (a, b) in seen.get(n.pitch, []):
+            if (a < n.quantized_end_step and n.quantized_start_step < b) or a == n.quantized_start_step:
+                return False
+        seen.setdefault(n.pitch, []).append((n.quantized_start_step, n.quantized_end_step))
+    steps = [t.quantized_step for t in q.text_annotations if t.annotation_type == 1]
+    return len(steps) == len(set(steps))
+
+
 def _run(op, ns, args):
     from note_seq import sequences_lib as sl
     _quiet()
@@ -120,6 +133,8 @@ def _run(op, ns, args):
     # event-sequence extraction works on quantized sequences
     if op in ('melody', 'drums', 'chords', 'pianorollseq', 'metric_performance'):
         q = sl.quantize_note_sequence(ns, args[0])
+    if op in ('melody', 'drums', 'chords', 'pianorollseq', 'metric_performance') and not _quantized_distinct(q):
+        return 'OUTSIDE-QUANTIFIER'
     if op == 'melody':
         from note_seq import melodies_lib
         m = melodies_lib.Melody()
@@ -149,6 +164,8 @@ def _run(op, ns, args):
     if op == 'performance':
         from note_seq import performance_lib
         q = sl.quantize_note_sequence_absolute(ns, args[0])
+        if not _quantized_distinct(q):
+            return 'OUTSIDE-QUANTIFIER'
         m = performance_lib.Performance(quantized_sequence=q, start_step=args[1], num_velocity_bins=args[2],
                                         instrument=args[3])
         return [[[e.event_type, e.event_value] for e in m], m.start_step, m.end_step]
@@ -268,6 +285,13 @@ def gen_case(rng, op, max_notes=None):
     elif op == 'midi':
         args = []
     elif op == 'pianoroll':
+        # sequence_to_pianoroll assumes a single instrument: two control changes of one number at one time
+        # are "two state events of one kind sharing a time" whatever their instrument field says
+        seen = set(); keep = []
+        for r in d['ccs']:
+            if (r[0], r[2]) not in seen:
+                seen.add((r[0], r[2])); keep.append(r)
+        d['ccs'] = keep
         args = [rng.choice([4, 8, 16, 32]), rng.choice([0, 21]), rng.choice([108, 127]),
                 rng.choice(['window', 'length_ms']), rng.choice([0, 250])]
     elif op in ('melody', 'drums'):
